@@ -126,7 +126,10 @@ func C17(env *Env) {
 		}
 	}
 	// the two convenience wrappers
-	for _, w := range []struct{ name, inner string; n int }{{"ExtendDigest", "rtmr.ExtendDigestClient", 2}, {"ExtendEventLog", "rtmr.ExtendEventLogClient", 3}} {
+	for _, w := range []struct {
+		name, inner string
+		n           int
+	}{{"ExtendDigest", "rtmr.ExtendDigestClient", 2}, {"ExtendEventLog", "rtmr.ExtendEventLogClient", 3}} {
 		fn := env.fn("rtmr", w.name)
 		if fn == nil {
 			continue
